@@ -29,13 +29,15 @@ KINDS = {"sum", "mean", "min", "max", "median", "countpos"}
 
 def consts(**kw):
     c = dict(N=4, VNeg=1, VPos=2, Kinds=KINDS, LoHi=2, Cmp="strict", Adjacent="separate", FitTarget="clone",
-             Emit=False, NSlices=1, Slice=0)
+             Emit=False, NSlices=1, Slice=0, Rounds=1, CloneWhen="every_fit")
     c.update(kw)
     return c
 
 
-STAGE = {"quick": [("N4", consts(), 16, [0, 1]), ("N3", consts(N=3, LoHi=3), 1, None)],
-         "thorough": [("N5", consts(N=5), 64, list(range(8))), ("N4", consts(), 8, None), ("N6-sum-median", consts(N=6, VPos=1, Kinds={"mean", "median"}, LoHi=1), 64, list(range(8)))]}
+# "2rounds": the wrapped detector object is reconfigured by the user after a first fit / predict and the anomaliser is
+# fitted again (every pair of changepoint sets)
+STAGE = {"quick": [("N4", consts(), 16, [0, 1]), ("N3", consts(N=3, LoHi=3), 1, None), ("N3-2rounds", consts(N=3, VPos=1, LoHi=1, Rounds=2, Kinds={"mean", "max", "sum"}), 1, None)],
+         "thorough": [("N5", consts(N=5), 64, list(range(8))), ("N4", consts(), 8, None), ("N3-2rounds", consts(N=3, LoHi=2, Rounds=2), 1, None), ("N4-2rounds", consts(N=4, LoHi=1, Rounds=2, Kinds={"mean", "max"}), 4, None), ("N6-sum-median", consts(N=6, VPos=1, Kinds={"mean", "median"}, LoHi=1), 64, list(range(8)))]}
 
 
 def countpos(v):
@@ -73,6 +75,8 @@ def replay_case(case):
 
     n, x, cps = case["n"], np.asarray(case["x"], dtype=float), case["cps"]
     want = [list(r) for r in case["rows"]]
+    two = case.get("rounds", 1) == 2
+    want1 = [list(r) for r in case["rows1"]] if two else want
     fails = []
     for rep, X in (("ndarray1d", x.copy()), ("ndarray2d", x.reshape(-1, 1).copy()), ("Series", pd.Series(x.copy(), index=pd.RangeIndex(0, 3 * n, 3))),
                    ("ndarray1d-int64", x.astype(np.int64)),
@@ -85,11 +89,19 @@ def replay_case(case):
             det = StatThresholdAnomaliser(inner, stat=STATS[case["kind"]], stat_lower=float(case["lo"]), stat_upper=float(case["hi"]))
             det.fit(X)
             rows, ok = project_sparse(det.predict(X), "anomaly")
+            if two:
+                if rows != want1 or not ok:
+                    fails.append(("flags_other_segments", {"input": rep, "round": 1, "got": rows, "expected": want1, "frame_ok": ok}))
+                # the user reconfigures THEIR detector object and fits the anomaliser again
+                inner.set_params(cps=tuple(case["cps2"]))
+                params_before = repr(inner.get_params())
+                det.fit(X)
+                rows, ok = project_sparse(det.predict(X), "anomaly")
         except Exception as e:
             fails.append(("raises", {"input": rep, "error": repr(e)[:200]}))
             continue
         if rows != want or not ok:
-            fails.append(("flags_other_segments", {"input": rep, "got": rows, "expected": want, "frame_ok": ok}))
+            fails.append(("flags_other_segments", {"input": rep, "round": 2 if two else 1, "got": rows, "expected": want, "frame_ok": ok}))
         if inner.is_fitted or hasattr(inner, "fitted_on_") or repr(inner.get_params()) != params_before:
             fails.append(("wrapped_detector_fitted_or_altered", {"input": rep}))
     adjacent = any(want[i][1] == want[i + 1][0] for i in range(len(want) - 1))
